@@ -182,6 +182,27 @@ func TestVerifEngineChild(t *testing.T) {
 			rep.RunErr = err.Error()
 		}
 		rep.Ran = true
+	case "dry+reload+run":
+		l, err := label.Parse(rawLabel)
+		if err != nil {
+			rep.RunErr = "bad label: " + err.Error()
+			break
+		}
+		rep.HashBefore = treeHash(root)
+		proj.Run(l, &RunOptions{DryRun: true})
+		rep.HashAfter = treeHash(root)
+		if rep.HashBefore != rep.HashAfter {
+			rep.RunErr = "dry run changed the tree"
+		}
+		if err := proj.Reload(); err != nil {
+			rep.LoadErr = "reload: " + err.Error()
+			break
+		}
+		err = proj.Run(l, nil) // nil options, as Project.Watch does after a reload
+		if rep.RunErr == "" {
+			rep.RunErr = errText(err)
+		}
+		rep.Ran = true
 	default:
 		l, err := label.Parse(rawLabel)
 		if err != nil {
